@@ -153,4 +153,14 @@ def check(ctx: Ctx) -> str:
     ctx.check(not stores, "module:private-state", "environment:TemplateModule.__init__", f"public attributes {[ast.unparse(a.targets[0]) for a in stores]}", "the module object's own attributes must be private: a template variable of the same name would replace them", tm.loc())
     ts = repo.func("environment:TemplateModule.__str__")
     ctx.check("concat(self._body_stream)" in ast.unparse(ts.node), "module:str", "environment:TemplateModule.__str__", "joins the body stream", "str(module) must join the rendered pieces", ts.loc())
+    ctx.rule("R5", "make_module / make_module_async build the context from the caller's `vars` as given: the parameter is never rebound and is the first argument of new_context, like the dict render() builds")
+    for fname in ("make_module", "make_module_async"):
+        mm = repo.func(f"environment:Template.{fname}")
+        rb = [x for x in ast.walk(mm.node) if isinstance(x, ast.Name) and x.id == "vars" and isinstance(x.ctx, ast.Store)]
+        nc = [c for c in astq.calls(mm.node) if astq.callee(c) == "self.new_context"]
+        ok = not rb and len(nc) == 1 and bool(nc[0].args) and ast.unparse(nc[0].args[0]) == "vars"
+        ctx.check(ok, f"{fname}:vars", f"environment:Template.{fname}", "`vars` is rewritten before the context is built" if rb else "context from vars",
+                  f"Template.{fname} must pass the caller's `vars` unchanged to self.new_context (rebound {len(rb)}x): filtered or copied selectively, `str(t.make_module(data))` renders different text than `t.render(data)` for data the filter drops (a key that is also a global)",
+                  mm.loc(rb[0]) if rb else mm.loc())
+
     return __doc__ or ""
